@@ -17,7 +17,9 @@ CAP = 600
 
 
 def cases(tier, seed):
-    return D.spec_cases(tier, seed, None, 330, 4400, "c07")
+    from vlib import gen
+    # the samplers differ most where RandomGen counts by itself: preambles, exclusions, uncrossed sources (K12)
+    return D.spec_cases(tier, seed, gen.CLASSES + ["K12", "K7", "K12"], 340, 4500, "c07")
 
 
 def run_case(case):
